@@ -16,6 +16,9 @@ func genCfg(rng *hx.Rng, prop string, meta *hx.Meta) cfg {
 		var ws writerSpec
 		for k, n := 0, 1+rng.Intn(3); k < n; k++ {
 			cs := callSpec{Kind: rng.Intn(5), Size: []int{0, 1, 7, 100, 1020, 1024, 1500}[rng.Intn(7)]}
+			if cs.Kind == 1 || cs.Kind == 3 {
+				cs.Segs = 1 + rng.Intn(3) // single-segment vectors included
+			}
 			if (cs.Kind == 2 || cs.Kind == 3) && rng.Chance(20) {
 				cs.CtxDone = true
 			}
